@@ -54,8 +54,10 @@ def override_worker(analysis: Analysis, spec) -> dict:
     for out in analysis.run_root(it, info.qual, [data], pr, st):
         kind, s, v = out
         calls = [e for e in s.events if e.kind == "call" and e.name.split(".")[-1] == method]
-        ok = kind == "val" and len(calls) == 1 and calls[0].args and calls[0].args[0].key() == data.key()
-        rows.append({"ok": ok, "witness": describe_path(out, 14)})
+        # ... and must not touch the framing state itself (the line buffer) or keep state of its own
+        effects = [f"{e.kind} {e.name}" for e in s.events if e.kind in ("store", "setitem", "delitem", "append", "appendleft", "extend", "clear", "seqpop", "dictpop", "update", "insert")]
+        ok = kind == "val" and len(calls) == 1 and calls[0].args and calls[0].args[0].key() == data.key() and not effects
+        rows.append({"ok": ok, "effects": effects, "witness": describe_path(out, 14)})
     return {"qual": info.qual, "rows": rows}
 
 
@@ -285,6 +287,29 @@ def run(analysis: Analysis, tier: str) -> RuleResult:
         res.add("C19-R4", f"{aj['async']['qual']} / runs exactly the given job once and hands exactly its reply to transport.send", ok, "mysensors/task.py", "reply = run_job((func, args)); transport.send(reply)" if ok else f"runs {r['runs']} (args ok: {r['run_args_ok']}), sends {r['sends']} (ok: {r['send_ok']}), appends {r['appends']}", r["witness"] if not ok else None)
     pw = common.pmap(analysis, pump_worker, ["x"])[0]
     res.add("C19-R4", "task:SyncTasks._poll_queue / each popped job is run once and exactly its reply is sent before the next job is popped", not pw["problems"] and pw["jobs"] > 0, "mysensors/task.py", f"{pw['paths']} paths, {pw['jobs']} pop events" if not pw["problems"] else pw["problems"][0][0], pw["problems"][0][1] if pw["problems"] else None)
+    # deferred jobs see what inline jobs see: a job bound to a message must own that message (created on the
+    # path for this job); a long-lived object rewritten per call gives the threaded flavour the last writer's
+    # fields for every queued job, while the asyncio flavour encodes at once
+    from . import c08, pathsum
+
+    last = analysis.versions[-1]
+    n_jobs = 0
+    for recs in common.pmap(analysis, pathsum.logic_records, [(last, "serial", "sync"), (analysis.versions[0], "serial", "sync"), (last, "mqtt", "sync")]):
+        for r in recs:
+            for sk in r["sinks"]:
+                if sk["kind"] != "add_job":
+                    continue
+                n_jobs += 1
+                job = sk.get("job") or ""
+                if sk.get("msg") is None and (job.startswith("ext:builtins.str") or "Gateway.logic" in job):
+                    continue  # str(<held line>) / logic(<line>): the argument is an immutable string
+                own = isinstance(sk.get("msg"), tuple) and sk["msg"][:1] == ("obj",) and "message:Message.encode" in job
+                res.add("C19-R4", f"{sk['func']} / a deferred job is bound to a message created for that job", own, f"{sk['func']}:{sk['line']}", "fresh Message object" if own else f"the job is {job[:60]} bound to {sk.get('msg')!r}, not to a message created on this path - an object that outlives the call: queued jobs all see its latest fields when the pump finally encodes them, the asyncio flavour encodes each at once", r["witness"] if not own else None, context=r["ctx"])
+    if n_jobs < 5:
+        raise AnalysisError(f"C19-R4: only {n_jobs} deferred jobs found on the paths of Gateway.logic")
+    # the job queue neither drops nor reorders (a bounded deque silently discards the oldest job: only the
+    # threaded flavour has a queue)
+    c08.queue_access(analysis, res, "C19-R4")
     # R5
     mq = {s["flavour"]: s for s in common.pmap(analysis, mqtt_recv_worker, ["sync", "async"])}
     res.add("C19-R5", "mqtt: both flavours receive through the same function", mq["sync"]["qual"] == mq["async"]["qual"], "mysensors/gateway_mqtt.py", f"{mq['sync']['qual']} / {mq['async']['qual']}")
